@@ -80,6 +80,11 @@ def getExtension (name : Str) : Str :=
   | [] => []                                   -- no dot
   | _ :: before => if before.isEmpty then [] else after
 
+/-- `Path::file_name` of a path given as text: the last component, trailing slashes ignored -/
+def pathFileName (p : Str) : Str :=
+  let body := (p.reverse.dropWhile (· == '/')).reverse
+  (body.reverse.takeWhile (· != '/')).reverse
+
 /-- `Path::parent` rendered as text (a slice of the original path) -/
 def parentOf (p : Str) : Option Str :=
   let stripSlashes (s : Str) : Str := (s.reverse.dropWhile (· == '/')).reverse
@@ -158,7 +163,7 @@ def fieldValue (cfg : Config) (e : Entry) (f : Field) : EM Variant :=
     if !f.availableInArchive then .ok (.empty .string) else
     match f with
     | .Name => .ok (.ofString (bracket e.name a.name))
-    | .Extension => .ok (.ofString (bracket e.name (getExtension ((a.name.reverse.takeWhile (· != '/')).reverse))))
+    | .Extension => .ok (.ofString (bracket e.name (getExtension (pathFileName a.name))))
     | .Path | .AbsPath => .ok (.ofString (bracket e.path a.name))
     | .Directory | .AbsDir => .ok (match parentOf a.name with | some p => .ofString p | none => .empty .string)
     | .Size => .ok (.ofInt a.size)
